@@ -182,6 +182,7 @@ def main(tier, t0):
     if tier == 'thorough':
         extra['witnesses'] = witness(rep)
         extra['controls'] = common.run_controls(PROP, rules, rep)
+        extra['benign_edits'] = common.run_benign(PROP, rules, rep)
     return core.finish(
         rep, tier, 'proof', t0,
         'Effect (purity) analysis over every body, type and item of the crate as compiled: no static mut / thread_local / interior-mutable static; every data type '
